@@ -11,7 +11,11 @@ RULE = ("random PEP 508 formula trees (or-lists of and-lists of atoms / parenthe
         "PEP 508 character pools incl. the other quote) rendered with random whitespace, quote style, dotted names and redundant "
         "parentheses, each evaluated under environments that spell out all 12 keys (values from the same pools, biased towards the "
         "compared literals; extra=None; python_full_version ending in '+'); an operator x operand x operand sweep over single atoms; "
-        "partial mappings on top of the host's default_environment(); mutated texts.  non-trivial = the marker was accepted and "
+        "partial mappings on top of the host's default_environment(); mutated texts; flat formulas of 4..40 atoms; right operands starting with '=' (the operator read back "
+        "from op+rhs is not the one written); markers nested 50..300 parentheses deep (redundant, right-, left-nested, zig-zag) with the value "
+        "the formula must have; non-ASCII word characters placed next to keywords and variable names; environments with repeated keys, keys "
+        "that name no variable, values with backslash / newline / NUL; a DETECTED python_full_version ending in '+' (platform.python_version "
+        "patched); markers reached through Requirement(...).marker.  non-trivial = the marker was accepted and "
         "evaluation returned a bool or UndefinedComparison; distinct by (text, environment)")
 ASSUMPTIONS = [
     "environment values are str (None only for 'extra'); lone surrogates never occur",
@@ -27,7 +31,45 @@ TRUSTED_EXTRA = [
 
 SWEEP_L = ["3.8", "3.10", "2.7", "1.0a1", "1.0", "1.0.0", "1.0+l", "1.0.post1", "3.8.1", " 3.8 ", "v3.8", "", "a", "ab", "b", "abc", "linux",
            "Foo_Bar", "foo-bar", "5.15.0-generic", "3.8.*", "1", "é", "A", "3.9", "3.12.0+local"]
-SWEEP_R = SWEEP_L + ["3.*", "1.0.*", "a b", "#1 SMP", "1.0 ;", "x)", "3.8+l.1", "3", "2!1.0", "1.0.dev0", "1.0+L"]
+SWEEP_R = SWEEP_L + ["3.*", "1.0.*", "a b", "#1 SMP", "1.0 ;", "x)", "3.8+l.1", "3", "2!1.0", "1.0.dev0", "1.0+L",
+                     "=3.8", "=1.0", "= 3.8", "==3.8", "=a", "=", "=3.8.*", "=1.0+l"]     # a leading '=' is absorbed by '<', '>' and '==' (Specifier(op + rhs))
+DETECTED_PFV = ["3.13.0+", "3.13.0a1+", "3.14.0rc2+", "3.9+", "3.12.1", "3.13.0", "x+", "+", "3.13.0 +", "3.13.0+local", "3.13.0+abc+"]
+ODD_KEYS = ["foo", "os.name", "sys.platform", "Extra", "EXTRA", "python-version", "", " os_name", "os_name ", "python_implementation", "extras"]
+ODD_VALUES = ["a\\b", "a\nb", "\x00", "3.8\n", "\n3.8", "3.8\\", "\t", "a\rb", "=3.8", "3.8\x0c"]
+DEEP_MIN = 480        # the implementation is recursive: from somewhere near 490 nested parentheses on CPython's default limit of 1000 it raises RecursionError
+
+
+def paren_depth(s):
+    d = m = 0
+    q = None
+    for c in s:
+        if q: q = None if c == q else q
+        elif c in "'\"": q = c
+        elif c == "(": d += 1; m = max(m, d)
+        elif c == ")": d -= 1
+    return m
+
+
+def match_deep_nesting(case, impl, model):
+    """Proposed known finding (C07/C09, 'any nesting'): a well-formed marker nested deeper than the interpreter's recursion limit allows makes
+    Marker() / Requirement() raise RecursionError.  Instance = nesting depth >= DEEP_MIN, the implementation raised RecursionError, and the
+    model (where there is one) accepted the text."""
+    if impl != "!EXC:RecursionError": return False
+    if case.cmd not in ("k.eval", "k.str", "k.eq", "law.k.deep", "law.k.roundtrip", "law.k.req"): return False
+    if paren_depth(case.args[0]) < DEEP_MIN: return False
+    return model is None or model in ("T", "F", "U") or model.startswith("S")
+
+
+def match_eq_absorbed(case, impl, model):
+    """Proposed finding (judgement call): '<', '>' or '==' written with a right operand "=V" is evaluated as '<=', '>=' or '===' on V
+    (the code concatenates operator and operand); under PEP 508 the right operand is no version and the string operator applies."""
+    if case.cmd != "law.k.pep508op" or not isinstance(impl, str) or "right operand is not a version" not in impl: return False
+    l, op, r = case.args
+    return op in ("<", ">", "==") and r.startswith("=")
+
+
+def _registered(name):
+    return any(f["matcher"] == name for f in core.load_findings("C07"))
 
 
 def compare(case, impl, model):
@@ -110,6 +152,85 @@ def streams(rng, tier):
                 s = s.replace(nm, 'os_name %s "xyz"' % ("in" if bits >> i & 1 else "not in"))
             env = G.rand_env(rng); env["os_name"] = "y"
             out.append(Case("precedence", "k.eval", [s, "M"] + G.env_args(env)))
+    # 5b. long or-lists / and-lists (4..40 atoms on one level), and the environment laws on deeper formulas
+    for _ in range(250 if q else 6000):
+        f = G.long_expr(rng, rng.randrange(4, 41))
+        s = G.render(rng, f)
+        out.append(Case("long-lists", "k.eval", [s, "M"] + G.env_args(G.env_for(rng, f))))
+        if rng.random() < 0.3: out.append(Case("law-env", "law.k.env", [s, json.dumps(G.env_for(rng, f, total=False))], kind="law"))
+    for _ in range(200 if q else 5000):
+        f = G.rand_expr(rng, rng.randrange(3, maxd + 1))
+        out.append(Case("law-env", "law.k.env", [G.render(rng, f), json.dumps(G.env_for(rng, f, total=False))], kind="law"))
+
+    # 6. deep nesting, far beyond the generic generator's depth 9 (the model is total; the implementation recurses)
+    depths = [50, 100, 150, 200, 250, 300] + [rng.randrange(50, 301) for _ in range(4 if q else 40)]
+    env = G.rand_env(rng); env["os_name"] = "b"
+    for n in depths:
+        for t, v in G.deep_texts(rng, n):
+            out.append(Case("deep", "k.eval", [t, "M"] + G.env_args(env)))
+            out.append(Case("law-deep", "law.k.deep", [t, "T" if v else "F"], kind="law"))
+    if _registered("match_deep_nesting"):
+        for n in [DEEP_MIN + 20, 600, 1000, 2000]:
+            for t, v in G.deep_texts(rng, n)[:3]:
+                out.append(Case("deep-beyond-recursion-limit", "k.eval", [t, "M"] + G.env_args(env)))
+
+    # 7. non-ASCII word characters next to keywords (Python's \b and \w are Unicode-aware, the model's are ASCII)
+    for _ in range(1200 if q else 30000):
+        f = G.rand_expr(rng, rng.randrange(2))
+        s = G.unicode_adjacent(rng, G.render(rng, f))
+        out.append(Case("unicode-boundary", "k.eval", [s, "M"] + G.env_args(G.env_for(rng, f))))
+    for s in ['os_name == "a" and\u00c9 os_name == "b"', 'os_name in\u017f "a"', '"a" in os_name\u0661', '\u212aos_name == "a"', 'os_name == "a" or\uff11("b" == os_name)',
+              'os_name not\u00a0in "a"', 'os_name not \u00e9in "a"', '"\u00c9" in"\u00c9a"', 'os_name=="\u017f"and"\u0661"!=os_name', "extra == '\u212a'", 'extra == "\u017f"']:
+        env = G.rand_env(rng); env["os_name"] = "\u017f"; env["extra"] = "k"
+        out.append(Case("unicode-boundary", "k.eval", [s, "M"] + G.env_args(env)))
+
+    # 8. environments as dicts are built: repeated keys (last assignment wins), keys naming no variable, odd values
+    for _ in range(800 if q else 20000):
+        f = G.rand_expr(rng, rng.randrange(3))
+        s = G.render(rng, f)
+        env = G.env_for(rng, f)
+        ents = G.env_args(env)
+        for _ in range(rng.choice([1, 1, 2, 3])):
+            k = rng.random()
+            if k < 0.4:      # a repeated key with another value, somewhere later
+                key = rng.choice([x for x in G.VARS])
+                v = G.rand_lit(rng) if rng.random() < 0.7 else rng.choice(ODD_VALUES)
+                if key == "extra" and rng.random() < 0.2: ents.append("oextra!")
+                else: ents.insert(rng.randrange(len(ents) + 1), "o" + key + "=" + v) if rng.random() < 0.3 else ents.append("o" + key + "=" + v)
+            elif k < 0.7:    # a key that names no variable
+                ents.insert(rng.randrange(len(ents) + 1), "o" + rng.choice(ODD_KEYS) + "=" + G.rand_lit(rng))
+            else:            # an odd value for a variable the formula reads
+                vs = [a[i][1] for a in G.atoms_of(f) for i in (1, 3) if a[i][0] == "var"] or ["os_name"]
+                ents.append("o" + rng.choice(vs) + "=" + rng.choice(ODD_VALUES))
+        out.append(Case("env-odd", "k.eval", [s, "M"] + ents))
+
+    # 9. a detected python_full_version ending in '+': the real default_environment() with platform.python_version() patched
+    for det in DETECTED_PFV:
+        d2 = dict(defaults); d2["python_full_version"] = det
+        for rhs in [det + "local", det, det.rstrip("+"), "3.13", "3.13.0+LOCAL", "3.9+local"]:
+            for op in ["==", ">=", "<", "===", "in", "~="]:
+                if q and rng.random() < 0.5: continue
+                s = 'python_full_version %s "%s"' % (op, rhs)
+                out.append(Case("detected-plus", "k.eval", [s, "N"] + G.env_args({}, d2)))
+                out.append(Case("detected-plus", "k.eval", [s, "M"] + G.env_args({"os_name": "x"}, d2)))
+                out.append(Case("law-repair", "law.k.repair", [s, det], kind="law"))
+    for _ in range(150 if q else 4000):
+        f = G.rand_expr(rng, rng.randrange(2))
+        out.append(Case("law-repair", "law.k.repair", [G.render(rng, f), rng.choice(DETECTED_PFV)], kind="law"))
+
+    # 10. markers reached through Requirement(...).marker (the constructor bypass: Marker.__new__ + _markers assignment) evaluate alike
+    for _ in range(300 if q else 8000):
+        f = G.rand_expr(rng, rng.randrange(3))
+        s = G.render(rng, f)
+        out.append(Case("law-req-eval", "law.k.reqeval", [s, rng.choice(G.REQ_PREFIXES), json.dumps(G.env_for(rng, f))], kind="law"))
+
+    # 11. (only once the finding is registered) the PEP 508 reading of a right operand that is no version
+    if _registered("match_eq_absorbed"):
+        for l in SWEEP_L:
+            for op in ["<", ">", "==", "<=", ">=", "!="]:
+                for r in ["=3.8", "=1.0", "=a", "= 3.8"]:
+                    if '"' not in l: out.append(Case("law-pep508-op", "law.k.pep508op", [l, op, r], kind="law"))
+
     # the literal_eval oracle boundary, per code point
     if q: out.append(Case("law-literal-eval", "law.k.literaleval", ["0", str(0x3000)], kind="law"))
     else: out += [Case("law-literal-eval", "law.k.literaleval", [str(a), str(a + 0x8000)], kind="law") for a in range(0, 0x110000, 0x8000)]
